@@ -79,7 +79,7 @@ class RestartRun:
     """
 
     def __init__(self, program, crashes=None, media=None, loader_mode='default', build=None, max_rounds=200, pauses=None,
-                 crash_paused=None, pause_in_step=None, crash_on_paused=None):
+                 crash_paused=None, pause_in_step=None, crash_on_paused=None, crash_on_played=None):
         self.plumpy = seams.install()
         self.program = program
         self.crashes = {int(k): v for k, v in (crashes or {}).items()}
@@ -111,6 +111,8 @@ class RestartRun:
         # notifications at which the checkpoint is written and the instance abandoned
         self.pause_in_step = set(int(b) for b in (pause_in_step or []))
         self.crash_on_paused = set(int(b) for b in (crash_on_paused or []))
+        self.crash_on_played = set(int(b) for b in (crash_on_played or []))
+        self.played_ordinal = 0
         self.step_ordinal = 0
         self.paused_ordinal = 0
         self.world.site_hook = self._in_user_code
@@ -159,28 +161,36 @@ class RestartRun:
             self.world.rec('pause_in_step', self.step_ordinal)
             proc.pause(f'paused from inside step execution {self.step_ordinal}')
 
-    def _paused_notification(self, proc):
+    def _paused_notification(self, proc, event='paused'):
         if getattr(proc, '_sim_label', None) != 'p':
             return
-        self.paused_ordinal += 1
-        if self.paused_ordinal not in self.crash_on_paused:
-            return
+        if event == 'played':
+            # the other notification at which a deployment writes its checkpoint: the process has just been un-paused
+            self.played_ordinal += 1
+            if self.played_ordinal not in self.crash_on_played:
+                return
+            ordinal = self.played_ordinal
+        else:
+            self.paused_ordinal += 1
+            if self.paused_ordinal not in self.crash_on_paused:
+                return
+            ordinal = self.paused_ordinal
         try:
             self.pending_bundle = save(proc, self._medium(), self._loader())
         except SimError:
             raise
         except Exception as exc:  # noqa: BLE001
             self.unsavable += 1
-            self.world.rec('unsavable', f'paused#{self.paused_ordinal}', type(exc).__name__)
+            self.world.rec('unsavable', f'{event}#{ordinal}', type(exc).__name__)
             return
-        self.crash_states.append('paused-notification:' + proc.state.value)
-        self.world.rec('crash', f'paused#{self.paused_ordinal}', 'paused-notification:' + proc.state.value, self._medium())
+        self.crash_states.append(f'{event}-notification:' + proc.state.value)
+        self.world.rec('crash', f'{event}#{ordinal}', f'{event}-notification:' + proc.state.value, self._medium())
         raise SimCrash()
 
     def _attach(self, proc):
         self.incarnations += 1
         proc._sim_label = 'p'
-        if self.crash_on_paused:
+        if self.crash_on_paused or self.crash_on_played:
             from . import listeners
 
             listeners.PAUSED_HOOK[0] = self._paused_notification
@@ -246,7 +256,10 @@ class RestartRun:
                         if self.pending_bundle is None and proc.paused:
                             # a pause requested during the last step is carried out with the transition into the terminal
                             # state: whoever paused plays again (which is what restores the status text)
-                            proc.play()
+                            try:
+                                proc.play()
+                            except SimCrash:
+                                continue
                         break
                     if proc.paused:
                         if self.boundary in self.crash_paused:
@@ -263,7 +276,10 @@ class RestartRun:
                             except Exception as exc:  # noqa: BLE001
                                 self.unsavable += 1
                                 self.world.rec('unsavable', self.boundary, type(exc).__name__)
-                        proc.play()
+                        try:
+                            proc.play()
+                        except SimCrash:
+                            break  # the checkpoint was written from the 'played' notification: continue from it
                     elif proc.state.value == 'waiting' and not task.done():
                         try:
                             if not self._wake(proc):
@@ -292,7 +308,7 @@ class RestartRun:
         return True
 
     def close(self):
-        if self.crash_on_paused:
+        if self.crash_on_paused or self.crash_on_played:
             from . import listeners
 
             listeners.PAUSED_HOOK[0] = None
